@@ -18,6 +18,7 @@ from vlib.evm import DEPLOYER, SENDER2, Chain, log_tuple
 EVM = "cancun"
 LEVELS = ["gas", "O3", "codesize"]       # O2, O3, Os   (venom -O none is an alias of O2 in vyper/venom/__init__.py)
 _helper_cache = {}
+_NEVER_COMPILES = set()      # pass classes whose removal made the pipeline fail/hang for an earlier program (per worker process)
 
 
 def _helper_code(kind):
@@ -272,12 +273,17 @@ def run_program(job):
             if diff is not None:
                 loc, still, failed = [], [], []
                 first = not any(f["kind"] == "behaviour" for f in res["findings"])
+                t_loc = time.time()
                 for p in names:
                     if p not in ran or not first:      # localise on the first failing level only (cost)
+                        continue
+                    if p in _NEVER_COMPILES or time.time() - t_loc > job.get("localise_secs", 90):
+                        failed.append(p)               # known from an earlier program in this worker / out of budget
                         continue
                     r = _skip_run(entry, cfg, p, abi, plan, stats)
                     if r is None:
                         failed.append(p)
+                        _NEVER_COMPILES.add(p)
                     elif R.first_difference(ref, r) is None:
                         loc.append(p)
                     else:
